@@ -1,5 +1,6 @@
 import Proofs.C06
 import Proofs.TieBasis
+import Proofs.TieInnerStep
 #print axioms PV.Proofs.C06.reset_set_eq
 #print axioms PV.Proofs.C06.set_differs
 #print axioms PV.Proofs.C06.acceptScore_some
@@ -26,3 +27,5 @@ import Proofs.TieBasis
 #print axioms PV.Proofs.Tie.value_range_tie
 #print axioms PV.Proofs.Tie.clamped_tie
 #print axioms PV.Proofs.Tie.sample_tie
+#print axioms PV.Proofs.Tie.declared_translated_innerstep
+#print axioms PV.Proofs.Tie.inner_step_tie
